@@ -6,11 +6,12 @@
       Agree.v     Targets = EnvFilter on the common grammar (F23)
       Scope.v     the per-thread scope stack refines "entered, not yet exited"
       ScopeSpec.v the span-scoped clause against the property text (F24, F12), Debug literals (F25)
-      EnvText.v   Display / parse of one EnvFilter directive, and of filters without field-name-only directives
+      EnvText.v   Display / parse of one EnvFilter directive of the modelled grammar
+      EnvRound.v  Display / parse of whole EnvFilters (both tables, has_dynamics, the cached maxima)
       Numerals.v  integers and booleans print to a text that reads back as the same value matcher
       Headline.v  corollaries and examples *)
 From TV Require Export Levels.Model Levels.Proofs Directive.Model Directive.Order Directive.Static Directive.Text
-  Directive.Dyn Directive.Agree Directive.EnvText Directive.Numerals Directive.Scope Directive.ScopeSpec Directive.Headline.
+  Directive.Dyn Directive.Agree Directive.EnvText Directive.EnvRound Directive.Numerals Directive.Scope Directive.ScopeSpec Directive.Headline.
 From Coq Require Import Lia Permutation Sorted.
 Local Open Scope N_scope.
 
